@@ -136,6 +136,16 @@ pub fn exec(op: &str, a: &[Vec<u8>]) -> Option<Resp> {
             }
             Resp::Ok(verify_all(&pk, &a[1], &sig, &a[3], a[4][0] & 1 == 1))
         }
+        "sig.verify_sk" => {
+            let seed = need!(b32(&a[0]));
+            let sig = need!(b64(&a[2]));
+            if a[3].len() > 255 {
+                return Some(Resp::Rej);
+            }
+            let pk = expand(&seed).pk;
+            let v = verify_all(&pk, &a[1], &sig, &a[3], a[4][0] & 1 == 1);
+            Resp::Ok(vec![v[0], v[1], v[0], v[3]])
+        }
         "sig.batch" => {
             let n = u16::from_le_bytes([a[0][0], a[0][1]]) as usize;
             let mut msgs: Vec<&[u8]> = vec![];
